@@ -85,7 +85,8 @@ def _run_once(exe, lines):
             f.write(l + "\n")
     env = dict(os.environ, OCAMLRUNPARAM="l=4G")
     # 4 GB address-space limit per driver process: a case whose evaluation explodes (exponentially many outcomes) is dropped, not the machine
-    p = subprocess.run(["bash", "-c", "ulimit -s unlimited 2>/dev/null; ulimit -v 4194304 2>/dev/null; exec \"$0\" \"$1\" \"$2\"", exe, fin, fout],
+    # ... and 10 minutes of CPU per driver process (a case that backtracks exponentially in the model is dropped like one that exhausts memory)
+    p = subprocess.run(["bash", "-c", "ulimit -s unlimited 2>/dev/null; ulimit -v 4194304 2>/dev/null; ulimit -t 600 2>/dev/null; exec \"$0\" \"$1\" \"$2\"", exe, fin, fout],
                        capture_output=True, text=True, env=env)
     res = {}
     if os.path.exists(fout):
